@@ -38,12 +38,13 @@ def main():
     ap.add_argument("--tier", default="quick")
     ap.add_argument("--no-store", action="store_true")
     ap.add_argument("--checks", default=None, help="comma list of checks to run instead of the designated one")
+    ap.add_argument("--sid", default=None, help="id under which the seed is stored (default <property>-<k>)")
     a = ap.parse_args()
     src = a.src or f"/tmp/seed-{a.prop}/_seed"
     patch = os.path.join(src, f"patch{a.k}.diff")
     demo = os.path.join(src, f"demo{a.k}.py")
     note = os.path.join(src, f"note{a.k}.md")
-    sid = f"{a.prop}-{a.k}"
+    sid = a.sid or f"{a.prop}-{a.k}"
     stored = os.path.join(ROOT, "seeded", sid)
     if not os.path.exists(patch) and os.path.exists(os.path.join(stored, "patch.diff")):
         # re-evaluation of an already stored seed
